@@ -185,6 +185,19 @@ Section Prov.
   (* Pull.Run: Verify -> VerifyAlways, else VerifyLater -> VerifyLater, else VerifyNever *)
   Definition pull_strategy (verify_flag verify_later : bool) : strategy :=
     if verify_flag then VerifyAlways else if verify_later then VerifyLater else VerifyNever.
+
+  (* ---------------------------------------------------------------- dependency manager *)
+  (* Manager.downloadAll hands m.Verify to the ChartDownloader of every dependency: per
+     dependency the outcome is DownloadTo's.  `helm dependency update --verify` sets
+     VerifyAlways; `helm dependency build --verify` set VerifyIfPossible before repair ec82a5f
+     and sets VerifyAlways since. *)
+  Definition manager_dep_ok (st : strategy) (kr : option keyring) (chart provf : option string) (name : string) : bool :=
+    match download_to st kr chart provf name with DErr => false | DOk _ => true end.
+
+  Definition dep_update_strategy (verify_flag : bool) : strategy := if verify_flag then VerifyAlways else VerifyNever.
+  Definition dep_build_strategy (verify_flag : bool) : strategy := if verify_flag then VerifyAlways else VerifyNever.
+  Definition dep_build_strategy_unrepaired (verify_flag : bool) : strategy :=
+    if verify_flag then VerifyIfPossible else VerifyNever.
 End Prov.
 
 Arguments VOk {signer}.
